@@ -367,6 +367,14 @@ class error_997_visitor(error_visitor.error_visitor):
             seg_data.set('AK304', '8')
             self._write(seg_data)
 
+    def _contains_delimiter(self, value):
+        """
+        A value holding one of this acknowledgement's own delimiters cannot be
+        echoed: it would add or split elements or segments
+        """
+        terms = [self.seg_term, self.ele_term, self.subele_term, getattr(self, 'repetition_term', None)]
+        return any(t is not None and t in value for t in terms)
+
     def visit_ele(self, err_ele):
         """
         @param err_ele: Segment error handler
@@ -387,7 +395,7 @@ class error_997_visitor(error_visitor.error_visitor):
             if err_cde in valid_AK4_codes:
                 seg_data = pyx12.segment.Segment(seg_str, '~', '*', ':')
                 seg_data.set('AK403', err_cde)
-                if bad_value:
+                if bad_value and not self._contains_delimiter(bad_value):
                     seg_data.set('AK404', bad_value)
                 self._write(seg_data)
 
